@@ -17,11 +17,16 @@ import (
 func init() {
 	add := func(id string, fs ...func(*report.Ctx)) { round5Rules[id] = append(round5Rules[id], fs...) }
 	add("C05", checkFailureFlags)
-	add("C06", checkFailureFlags, checkExitClassification, checkInitErrorCachedOrForwarded, checkInitFailuresHandled)
-	add("C07", checkRuntimeAPIServed, checkInitFailuresHandled, checkBuilderSettersStore)
-	add("C15", checkExitClassification)
+	add("C06", checkFallbackFaultOnlyWithoutCached, checkSweepGuards, checkFailureFlags, checkExitClassification, checkInitErrorCachedOrForwarded, checkInitFailuresHandled)
+	add("C07", checkSweepMustPass, checkPanicGuards, checkRuntimeAPIServed, checkInitFailuresHandled, checkBuilderSettersStore)
+	add("C15", checkExitClassification, checkFallbackFaultOnlyWithoutCached)
 	add("C12", checkRuntimeAPIServed)
-	add("C09", checkBuilderSettersStore)
+	add("C09", checkBuilderSettersStore, checkSweepGuards, checkSweepMustPass)
+	add("C01", checkSweepGuards, checkSweepMustPass)
+	add("C03", checkSweepGuards)
+	add("C08", checkSweepMustPass)
+	add("C10", checkSweepGuards, checkSweepMustPass)
+	add("C16", checkSweepGuards)
 }
 
 // storeUnder lists, for the constant stores to field of structName in f, the facts of their blocks.
@@ -345,4 +350,329 @@ func checkBuilderSettersStore(c *report.Ctx) {
 	}
 	sort.Strings(bad)
 	c.Check("R-WIRE", "L/rapidcore.SandboxBuilder/setters-store", "each Set... method of the sandbox builder stores its argument on every path (supervisor, interop server, handler, init-caching flag, ... reach the sandbox that Create builds)", len(bad) == 0 && n >= 8, pos, n, "setters: %d; not storing: %v", n, bad)
+}
+
+// checkPanicGuards: the tabled termination sites are taken only under the condition their justification names.
+func checkPanicGuards(c *report.Ctx) {
+	type site struct {
+		pkg, fn, what string
+		guard         func(f *ssa.Function) func(an.Fact) bool
+	}
+	okFlagOf := func(callee string, want bool) func(f *ssa.Function) func(an.Fact) bool {
+		return func(f *ssa.Function) func(an.Fact) bool {
+			return func(ft an.Fact) bool {
+				ex, ok := ft.Cond.(*ssa.Extract)
+				if !ok || ex.Index != 1 || ft.Val != want {
+					return false
+				}
+				if callee == "" {
+					_, isL := ex.Tuple.(*ssa.Lookup)
+					return isL
+				}
+				cl, isC := ex.Tuple.(*ssa.Call)
+				return isC && strings.HasSuffix(an.Callee(cl), callee)
+			}
+		}
+	}
+	sites := []site{
+		{"L/rapid", "(*shutdownContext).handleProcessExit", "no exit channel was found for the process", okFlagOf("shutdownContext.getExitedChannel", false)},
+		{"L/rapid", "(*shutdownContext).createExitedChannel", "a channel already exists under the name", okFlagOf("", true)},
+		{"L/rapid", "(*rapidContext).watchEvents", "the event is an event-loss event", func(f *ssa.Function) func(an.Fact) bool {
+			return func(ft an.Fact) bool {
+				return an.CmpNil(ft, false, func(v ssa.Value) bool {
+					cl, _ := an.CallOf(v)
+					return cl != nil && strings.HasSuffix(an.Callee(cl), "EventData.EventLoss")
+				})
+			}
+		}},
+	}
+	sites = append(sites, site{rapidcP, "(*Server).trySendDefaultErrorResponse", "sending the default error response failed", func(f *ssa.Function) func(an.Fact) bool {
+		return func(ft an.Fact) bool { return an.CmpNil(ft, false, errResultOf("Server.SendErrorResponse")) }
+	}})
+	for _, s := range sites {
+		f := fn(c, s.pkg, s.fn)
+		if f == nil {
+			continue
+		}
+		facts := an.NewFacts(f)
+		n, ok := 0, true
+		pos := fpos(f)
+		for _, call := range an.Calls(f, func(cal string) bool { return strings.Contains(cal, "logrus.Panic") }) {
+			n++
+			if !facts.Holds(call.Block(), s.guard(f)) {
+				ok = false
+				pos = an.InstrPos(call)
+			}
+		}
+		c.Check("R-GUARD", an.FuncName(f)+"/panic-guard", "the process-terminating site is reached only when "+s.what, ok && n == 1, pos, n, "panic sites: %d, under that condition: %v", n, ok)
+	}
+}
+
+func errResultOf(callee string) func(ssa.Value) bool {
+	return func(v ssa.Value) bool {
+		cl, _ := an.CallOf(v)
+		return cl != nil && strings.HasSuffix(an.Callee(cl), callee) && isErrorType(v.Type())
+	}
+}
+
+// checkSweepGuards: guards of the main path that neither a blind round nor the repository's tests had pinned.
+func checkSweepGuards(c *report.Ctx) {
+	// HasActiveExtensions == extensions.AreEnabled() && CountAgents() > 0
+	if f := fn(c, "L/rapid", "(*rapidContext).HasActiveExtensions"); f != nil {
+		facts := an.NewFacts(f)
+		cmp := false
+		an.AllInstrs(f, func(in ssa.Instruction) {
+			bo, ok := in.(*ssa.BinOp)
+			if !ok || !an.IsResultOf(bo.X, regSvcI+"CountAgents", -1) {
+				return
+			}
+			z, isC := an.ConstInt(bo.Y)
+			if isC && (bo.Op == token.GTR && z == 0 || bo.Op == token.GEQ && z == 1 || bo.Op == token.NEQ && z == 0) {
+				cmp = facts.Holds(bo.Block(), func(ft an.Fact) bool {
+					cl, _ := an.CallOf(ft.Cond)
+					return cl != nil && an.Callee(cl) == "L/extensions.AreEnabled" && ft.Val
+				})
+			}
+		})
+		falseElsewhere := true
+		for _, e := range an.Exits(f) {
+			for _, leaf := range an.PhiLeaves(e.Vals[0]) {
+				if b, isC := an.ConstBool(leaf); isC && b {
+					falseElsewhere = false
+				}
+			}
+		}
+		c.Check("R-GUARD", an.FuncName(f)+"/definition", "there are active extensions exactly when extensions are enabled and at least one is registered", cmp && falseElsewhere, fpos(f), 1, "CountAgents() > 0 evaluated under AreEnabled(): %v; no constant true: %v", cmp, falseElsewhere)
+	}
+	// extensions are launched exactly when extensions are enabled; the runtime domain is initialised by handleInit
+	// exactly when the init is not suppressed; the sandbox's handler is applied exactly when one was given
+	type guarded struct {
+		pkg, fn, callee, key, what string
+		pred                       func(an.Fact) bool
+	}
+	gs := []guarded{
+		{"L/rapid", "doRuntimeDomainInit", "L/rapid.doInitExtensions", "extensions-launched-when-enabled", "external extensions are launched exactly on the path where extensions are enabled", func(ft an.Fact) bool {
+			cl, _ := an.CallOf(ft.Cond)
+			return cl != nil && an.Callee(cl) == "L/extensions.AreEnabled" && ft.Val
+		}},
+		{"L/rapid", "handleInit", "L/rapid.doRuntimeDomainInit", "init-unless-suppressed", "handleInit initialises the runtime domain exactly when the request does not suppress init", func(ft an.Fact) bool {
+			return !ft.Val && an.IsFieldLoad(ft.Cond, "L/interop.Init", "SuppressInit")
+		}},
+		{rapidcP, "(SandboxContext).Init", envT + ".SetHandler", "handler-applied-when-given", "the sandbox's handler is applied exactly when one was given (an empty one must not replace the init request's)", func(ft an.Fact) bool {
+			x, _, nonzero := an.LenSign(ft)
+			return x != nil && nonzero
+		}},
+	}
+	for _, g := range gs {
+		f := fn(c, g.pkg, g.fn)
+		if f == nil {
+			continue
+		}
+		n, ok := 0, true
+		pos := fpos(f)
+		for _, h := range an.WithAnon(f) {
+			facts := an.NewFacts(h)
+			for _, call := range an.CallsTo(h, g.callee) {
+				n++
+				if !facts.Holds(call.Block(), g.pred) {
+					ok = false
+					pos = an.InstrPos(call)
+				}
+			}
+		}
+		c.Check("R-GUARD", an.FuncName(f)+"/"+g.key, g.what, ok && n == 1, pos, n, "call sites: %d, under the condition: %v", n, ok)
+	}
+	// the reply sink takes the direct-invoke path exactly for a direct reservation
+	if f := fn(c, rapidcP, "(*Server).sendResponseUnsafe"); f != nil {
+		facts := an.NewFacts(f)
+		isDirect := func(want bool) func(an.Fact) bool {
+			return func(ft an.Fact) bool { return ft.Val == want && an.IsFieldLoad(ft.Cond, ictxT, "Direct") }
+		}
+		okD, okB := false, false
+		for _, call := range an.CallsTo(f, diP+".SendDirectInvokeResponse") {
+			okD = facts.Holds(call.Block(), isDirect(true))
+		}
+		for _, call := range an.CallsTo(f, "io.ReadAll") {
+			okB = facts.Holds(call.Block(), isDirect(false))
+		}
+		c.Check("R-GUARD", an.FuncName(f)+"/direct-exactly-for-direct", "the direct-invoke writer is used exactly for a reservation made by a direct invoke; every other response is read whole and measured", okD && okB, fpos(f), 2, "direct path under Direct: %v; buffered path under !Direct: %v", okD, okB)
+	}
+	// Server.Invoke: not started only without a failure channel; init-failure handling only after a failed wait; the
+	// release failure handling only for a failed release; the successful arm gives the reservation back
+	if inv := fn(c, rapidcP, "(*Server).Invoke"); inv != nil {
+		facts := an.NewFacts(inv)
+		okNS := false
+		for _, e := range an.Exits(inv) {
+			if len(e.Vals) == 1 && an.GlobalOf(e.Vals[0]) == "L/rapidcore.ErrInitNotStarted" {
+				okNS = facts.Holds(e.Ret.Block(), func(ft an.Fact) bool {
+					return an.CmpNil(ft, true, func(v ssa.Value) bool { return an.IsResultOf(v, srvT+".getInitFailuresChan", -1) })
+				})
+			}
+		}
+		okSh, okRF := false, false
+		for _, g := range an.WithAnon(inv) {
+			gf := an.NewFacts(g)
+			for _, call := range an.CallsTo(g, srvT+".Shutdown") {
+				okSh = gf.Holds(call.Block(), func(ft an.Fact) bool { return an.CmpNil(ft, false, errResultOf("Server.awaitInitialized")) })
+			}
+			for _, call := range an.CallsTo(g, srvT+".Reset") {
+				if s, _ := an.ConstString(call.Common().Args[1]); s == "ReleaseFail" {
+					okRF = gf.Holds(call.Block(), func(ft an.Fact) bool { return an.CmpNil(ft, false, errResultOf("Server.AwaitRelease")) })
+				}
+			}
+		}
+		okRel := false
+		an.AllInstrs(inv, func(in ssa.Instruction) {
+			sel, ok := in.(*ssa.Select)
+			if !ok {
+				return
+			}
+			for k, st := range sel.States {
+				if chanName(st.Chan) == "releaseSuccessChan" && len(sel.States) == 3 {
+					if arm := selectArmEntry(sel, k); arm != nil {
+						okRel = !returnReachableAvoiding(arm, isPlainCallTo(srvT+".Release"))
+					}
+				}
+			}
+		})
+		c.Check("R-GUARD", an.FuncName(inv)+"/main-path-guards", "Invoke answers 'init not started' only without a failure channel, cleans up a failed init only after awaitInitialized failed, resets for a release failure only when AwaitRelease failed, and gives the reservation back when the invocation completed", okNS && okSh && okRF && okRel, fpos(inv), 4, "not-started only without channel: %v; Shutdown under a failed init wait: %v; ReleaseFail reset under a failed release: %v; Release on the success arm: %v", okNS, okSh, okRF, okRel)
+	}
+}
+
+// checkSweepMustPass: steps of the main path that must happen on every path.
+func checkSweepMustPass(c *report.Ctx) {
+	runMustPass(c, []mustPass{
+		{"L/rapid", "handleInvoke", "stores-response-sender", "the invocation's response sender is put where the API handlers look for it, on every path (without it /response and /error panic)", isPlainCallTo("L/appctx.StoreResponseSender")},
+		{"L/rapid", "Start", "stores-interop-server", "the interop server is put where the request-id validator looks for it, on every path", isPlainCallTo("L/appctx.StoreInteropServer")},
+		{"L/rapid", "(*shutdownContext).setShuttingDown", "stores", "the shutting-down mark is stored (exits during a shutdown are expected, not crashes)", isStoreOf("L/rapid.shutdownContext", "shuttingDown", func(v ssa.Value) bool { _, k := v.(*ssa.Parameter); return k })},
+		{rapidcP, "(*Server).Clear", "releases", "clearing the server gives the reservation back", isPlainCallTo(srvT + ".Release")},
+		{rapidcP, "(*Server).setCachedInitErrorResponse", "stores", "the cached init error is stored", isStoreOf(srvT, "cachedInitErrorResponse", func(v ssa.Value) bool { _, k := v.(*ssa.Parameter); return k })},
+	})
+	// handleInvoke: the sender is stored before the invocation is dispatched
+	if f := fn(c, "L/rapid", "handleInvoke"); f != nil {
+		st := an.CallsTo(f, "L/appctx.StoreResponseSender")
+		di := an.CallsTo(f, "L/rapid.doInvoke")
+		ok := len(st) == 1 && len(di) == 1 && an.InstrDominates(st[0], di[0])
+		c.Check("R-ORDER", an.FuncName(f)+"/sender-before-dispatch", "the response sender is stored before doInvoke dispatches the invocation", ok, fpos(f), 2, "%v", ok)
+	}
+	// Server.Clear drains the done channel
+	if f := fn(c, rapidcP, "(*Server).Clear"); f != nil {
+		drains := false
+		for _, g := range append(an.WithAnon(f), f) {
+			an.AllInstrs(g, func(in ssa.Instruction) {
+				if sel, ok := in.(*ssa.Select); ok && !sel.Blocking {
+					for _, s := range sel.States {
+						if s.Dir == 2 /* recv */ || chanName(s.Chan) == "InvokeDoneChan" {
+							if chanName(s.Chan) == "InvokeDoneChan" || strings.Contains(an.Path(s.Chan), "InvokeDoneChan") {
+								drains = true
+							}
+						}
+					}
+				}
+			})
+		}
+		if !drains {
+			drains = len(an.CallsTo(f, "L/rapidcore.drainChannel")) == 1
+		}
+		c.Check("R-RESET", an.FuncName(f)+"/drains-done-channel", "clearing the server drains a completion left over from the old generation", drains, fpos(f), 1, "%v", drains)
+	}
+	// the shutdown fan-out's goroutines report done when they ARE done
+	if f := fn(c, "L/rapid", "(*shutdownContext).shutdownAgents"); f != nil {
+		n, ok := 0, true
+		pos := fpos(f)
+		for _, g := range f.AnonFuncs {
+			dones := an.Calls(g, func(s string) bool { return s == "sync.WaitGroup.Done" })
+			if len(dones) == 0 {
+				continue
+			}
+			for _, d := range dones {
+				n++
+				if _, isDefer := d.(*ssa.Defer); isDefer {
+					continue
+				}
+				// a plain Done must come after the kill / the wait for the exit
+				after := false
+				for _, k := range an.Calls(g, func(s string) bool { return strings.HasSuffix(s, "ProcessSupervisor.Kill") }) {
+					if an.InstrDominates(k, d) {
+						after = true
+					}
+				}
+				if !after && !an.DeferOrigin(d) {
+					ok = false
+					pos = an.InstrPos(d)
+				}
+			}
+		}
+		c.Check("R-ORDER", an.FuncName(f)+"/done-when-done", "each fan-out goroutine reports done by defer (or after its kill), never before it has waited for or killed its extension: the reset returns only after every extension is gone", ok && n >= 2, pos, n, "Done sites: %d, deferred or after the kill: %v", n, ok)
+	}
+}
+
+// checkFallbackFaultOnlyWithoutCached: the generic fault type is recorded only when the bootstrap has no cached
+// fault of its own for the error.
+func checkFallbackFaultOnlyWithoutCached(c *report.Ctx) {
+	n := 0
+	var bad []string
+	pos := token.NoPos
+	for _, name := range []string{"doRuntimeBootstrap", "doRuntimeDomainInit"} {
+		f := fn(c, "L/rapid", name)
+		if f == nil {
+			continue
+		}
+		if len(an.Calls(f, func(s string) bool { return strings.HasSuffix(s, "Bootstrap.CachedFatalError") })) == 0 {
+			continue
+		}
+		facts := an.NewFacts(f)
+		hasErr := func(want bool) func(an.Fact) bool {
+			return func(ft an.Fact) bool {
+				ex, ok := ft.Cond.(*ssa.Extract)
+				if !ok || ft.Val != want {
+					return false
+				}
+				cl, isC := ex.Tuple.(*ssa.Call)
+				return isC && strings.HasSuffix(an.Callee(cl), "Bootstrap.CachedFatalError") && ex.Index == 2
+			}
+		}
+		for _, call := range an.CallsTo(f, "L/appctx.StoreFirstFatalError") {
+			_, isConst := an.ConstString(call.Common().Args[1])
+			n++
+			if isConst && !facts.Holds(call.Block(), hasErr(false)) {
+				bad = append(bad, name+": a constant fault type recorded although a cached one may exist")
+				pos = an.InstrPos(call)
+			}
+			if !isConst && !facts.Holds(call.Block(), hasErr(true)) {
+				bad = append(bad, name+": the cached fault recorded although none was found")
+				pos = an.InstrPos(call)
+			}
+		}
+	}
+	// a runtime that cannot be launched always leaves a fault type behind
+	if f := fn(c, "L/rapid", "doRuntimeDomainInit"); f != nil {
+		for _, call := range an.CallsTo(f, supExec) {
+			v := call.Value()
+			if v == nil {
+				continue
+			}
+			for _, r := range *v.Referrers() {
+				bo, ok := r.(*ssa.BinOp)
+				if !ok || (bo.Op != token.NEQ && bo.Op != token.EQL) {
+					continue
+				}
+				for _, r2 := range *bo.Referrers() {
+					if iff, ok := r2.(*ssa.If); ok {
+						errEdge := iff.Block().Succs[0]
+						if bo.Op == token.EQL {
+							errEdge = iff.Block().Succs[1]
+						}
+						n++
+						if returnReachableAvoiding(errEdge, isPlainCallTo("L/appctx.StoreFirstFatalError")) {
+							bad = append(bad, "doRuntimeDomainInit: a failed runtime Exec can return without recording a fault type")
+							pos = an.InstrPos(iff)
+						}
+					}
+				}
+			}
+		}
+	}
+	sort.Strings(bad)
+	c.Check("R-GUARD", "L/rapid/bootstrap-fault/cached-first", "when the bootstrap or the runtime cannot be started, the bootstrap's own cached fault is recorded when there is one and the generic type only otherwise", len(bad) == 0 && n >= 5, pos, n, "recordings examined: %d; %v", n, bad)
 }
